@@ -241,7 +241,7 @@ func xValues(r *hxlib.Rng, t ityp) []*big.Int {
 
 // runCase is the oracle for one (op, type, a, b).  Returns the description of
 // the folded constant (for the `fold` op line) and the run-time `ret` output.
-func runCase(o *hxlib.Out, r *hxlib.Rng, c foldCase, verbose bool) (foldDesc string, rtOut string) {
+func runCase(o *hxlib.Out, r *hxlib.Rng, c foldCase, verbose bool) (foldDesc string, cretOut string, rtOut string) {
 	ce, re := c.exprs()
 	cons := c.consumers()
 	retOnly := cons[:1]
@@ -256,6 +256,7 @@ func runCase(o *hxlib.Out, r *hxlib.Rng, c foldCase, verbose bool) (foldDesc str
 			buildProgram(c.t, re, c.op.cmp, cons, true, c.op.unary, c.op.shift))
 	}
 	foldDesc = errClass(cRet.err)
+	cretOut = errClass(cRet.err)
 	rtOut = errClass(rRet.err)
 	if rRet.err != "" {
 		// the run-time variant is not accepted: nothing to compare with
@@ -325,6 +326,7 @@ func runCase(o *hxlib.Out, r *hxlib.Rng, c foldCase, verbose bool) (foldDesc str
 			}
 			if xi == 0 && len(cons) > 0 && cons[0].name == "ret" {
 				rtOut = "ok " + ro[0].Text(16)
+				cretOut = "ok " + co[0].Text(16)
 			}
 			for i, cn := range cons {
 				if co[i].Cmp(ro[i]) != 0 {
@@ -584,8 +586,11 @@ func modeFold(cf *hxlib.CommonFlags, o *hxlib.Out) {
 			continue
 		}
 		seen[k] = true
-		fd, rt := runCase(o, cr, c, cf.Only >= 0)
+		fd, cret, rt := runCase(o, cr, c, cf.Only >= 0)
 		o.Op(caseLine(c), fd)
+		if rt != "error" && rt != "panic" {
+			o.Op(strings.Replace(caseLine(c), "c12 fold", "c12 cret", 1), cret)
+		}
 		o.Op(fmt.Sprintf("c12 rt %s %s %d %s %s", c.op.sym, c.t.su(), c.t.n, c.a, c.b), rt)
 		o.Count("op_" + c.op.sym)
 		o.Count("width_" + nClass(c.t.n))
@@ -615,8 +620,8 @@ func modeOne(cf *hxlib.CommonFlags, o *hxlib.Out) {
 	c.a, _ = new(big.Int).SetString(f[3], 10)
 	c.b, _ = new(big.Int).SetString(f[4], 10)
 	c.aform, c.bform = f[5], f[6]
-	fd, rt := runCase(o, hxlib.NewRng(cf.Seed), c, true)
-	fmt.Fprintf(os.Stderr, "folded constant: %s\nrun-time ret:   %s\n", fd, rt)
+	fd, cret, rt := runCase(o, hxlib.NewRng(cf.Seed), c, true)
+	fmt.Fprintf(os.Stderr, "folded constant: %s\nconstant ret:   %s\nrun-time ret:   %s\n", fd, cret, rt)
 	for _, fl := range store.fails {
 		fmt.Fprintf(os.Stderr, "FAIL %v\n", fl)
 	}
